@@ -137,6 +137,7 @@ type bcAnalysis struct {
 	consts        env
 	closureAssign map[string]bool
 	discharged    map[ast.Node]string
+	hasGoto       bool
 }
 
 var bcBuiltins = map[string]bool{"len": true, "cap": true, "append": true, "copy": true, "make": true, "new": true, "string": true,
@@ -488,6 +489,9 @@ func (a *bcAnalysis) stmt(s ast.Stmt, en bcEnv) bcEnv {
 		en.killAll(bcAssigned(x))
 		return en
 	case *ast.LabeledStmt:
+		if a.hasGoto { // a label that a goto may reach from anywhere: nothing is known there
+			return a.stmt(x.Stmt, bcEnv{subst: map[string]bcLin{}})
+		}
 		return a.stmt(x.Stmt, en)
 	case *ast.IfStmt:
 		inner := en.clone()
@@ -632,6 +636,9 @@ func bcDischarge(fd *ast.FuncDecl, consts env) map[ast.Node]string {
 			for id := range bcAssigned(fl.Body) {
 				a.closureAssign[id] = true
 			}
+		}
+		if br, ok := n.(*ast.BranchStmt); ok && br.Tok == token.GOTO {
+			a.hasGoto = true
 		}
 		return true
 	})
